@@ -28,11 +28,11 @@ func init() {
 }
 
 type accParams struct {
-	Prop        string `json:"prop"`
-	Budget      int    `json:"budget"`
-	MutantMax   int    `json:"mutant_max_bytes"`
-	SeqLen      int    `json:"seq_len"`
-	Family      string `json:"family"` // models corpus mutants sequences special
+	Prop      string `json:"prop"`
+	Budget    int    `json:"budget"`
+	MutantMax int    `json:"mutant_max_bytes"`
+	SeqLen    int    `json:"seq_len"`
+	Family    string `json:"family"` // models corpus mutants sequences special
 }
 
 func runAcc(c *chk.Ctx, prop string) {
